@@ -9,4 +9,8 @@ const (
 	WithRollback = false
 	WithFaults   = false
 	WithCrash    = false
+	WithVersions = false
+	Budget       = 1
+	WithWork     = false
+	NProbe       = 0
 )
